@@ -663,7 +663,7 @@ Proof. exact load_frame_duplicate. Qed.
 
 (* ---- non-vacuity (second part) ---------------------------------------------- *)
 (* leaves: pyF n = the float n/8, pyI = int, pyS = str, pyN = null (Model/ConfLoad.v `py`).
-   Every value below was replayed on the real library (see .work/prover_C20_TIE.md). *)
+   Every value below was replayed on the real library (see notes/prover_C20_TIE.md). *)
 Local Open Scope Z_scope.
 
 (* {longitudinal_vel: 6300.0, transverse_att: 3.0, longitudinal_att: null, metadata: null}:
